@@ -93,6 +93,21 @@ claim('C18',
       'not decided.',
       'Trusted: python ast, E1/E2, the recognised expression shapes; an unrecognised shape is an ANALYSIS-ERROR.')
 
+claim('C14',
+      'cross-table agreement (scanned containers vs FileContents declaration fields vs valid_types), structural rules '
+      'on the lookup loops, regex language inclusion via re._parser, who-may-write analysis on NamespaceIds.items '
+      '(E3c), separator table agreement, over python ast',
+      'Static rule set for the structural part: find_fqn/find_any scan exactly the declaration containers (never '
+      'imports/file names) and valid_types is the same class set; a declaration is appended at most once and matches '
+      'by whole-name equality (suffix search: exact tail slice); the resolution order is append-only from the full '
+      'calling scope outwards on a deep copy; the identifier regex denotes a subset of [A-Za-z_][A-Za-z0-9_]* and is '
+      'applied with fullmatch to every identifier, NamespaceIds cannot be built or modified around that validation; '
+      'writer and reader separators agree and cannot occur in identifiers. The set equalities of the statement '
+      '(exactly the declarations on the chain, innermost-to-outermost, lossless conversion) are value-level and are '
+      'NOT decided.',
+      'Trusted: python ast, re._parser of the running interpreter, E1 types, E3c ownership summaries. A caller that '
+      'mutates its own list after handing it to NamespaceIds is outside the library\'s control (observation O3).')
+
 _pending = 'check not built yet in this round (design in DESIGN.md section 3); will be claimed when its rules run clean'
 for _n in range(1, 21):
     _p = f'C{_n:02d}'
